@@ -8,7 +8,10 @@ use std::error::Error;
 use std::fs::{self, File};
 use std::path::Path;
 use std::time::SystemTime;
-use std::{borrow::Cow, io::Write};
+use std::{
+    borrow::Cow,
+    io::{stderr, Write},
+};
 
 use chrono::{format::StrftimeItems, DateTime, Local};
 
@@ -629,11 +632,11 @@ impl Printf {
         })
     }
 
-    fn print(&self, file_info: &WalkEntry, mut out: impl Write) {
+    fn print(&self, file_info: &WalkEntry, mut out: impl Write) -> std::io::Result<()> {
         for component in &self.format.components {
             match component {
-                FormatComponent::Literal(literal) => write!(out, "{literal}").unwrap(),
-                FormatComponent::Flush => out.flush().unwrap(),
+                FormatComponent::Literal(literal) => write!(out, "{literal}")?,
+                FormatComponent::Flush => out.flush()?,
                 FormatComponent::Directive {
                     directive,
                     width,
@@ -645,18 +648,18 @@ impl Printf {
                             // (panics on) widths above 65535.
                             let mut blanks = width.saturating_sub(content.chars().count());
                             if matches!(justify, Justify::Left) {
-                                write!(out, "{content}").unwrap();
+                                write!(out, "{content}")?;
                             }
                             while blanks > 0 {
                                 let n = blanks.min(64);
-                                write!(out, "{:n$}", "").unwrap();
+                                write!(out, "{:n$}", "")?;
                                 blanks -= n;
                             }
                             if matches!(justify, Justify::Right) {
-                                write!(out, "{content}").unwrap();
+                                write!(out, "{content}")?;
                             }
                         } else {
-                            write!(out, "{content}").unwrap();
+                            write!(out, "{content}")?;
                         }
                     }
                     Err(e) => {
@@ -672,16 +675,26 @@ impl Printf {
         }
         // Like -print: what this action wrote comes before the output of any
         // command a later action runs.
-        out.flush().unwrap();
+        out.flush()
     }
 }
 
 impl Matcher for Printf {
     fn matches(&self, file_info: &WalkEntry, matcher_io: &mut MatcherIO) -> bool {
         if let Some(file) = &self.output_file {
-            self.print(file_info, file);
+            // As for -fprint: a file that cannot be written is diagnosed.
+            if let Err(e) = self.print(file_info, file) {
+                let _ = writeln!(
+                    &mut stderr(),
+                    "Error writing {:?} for {}",
+                    file_info.path().to_string_lossy(),
+                    e
+                );
+                matcher_io.set_exit_code(1);
+            }
         } else {
-            self.print(file_info, &mut *matcher_io.deps.get_output().borrow_mut());
+            self.print(file_info, &mut *matcher_io.deps.get_output().borrow_mut())
+                .unwrap();
         }
 
         true
